@@ -549,13 +549,13 @@ func genGcsMore(g *core.Gen) {
 	}
 	// --- N at the CompactSize boundaries of the N prefix
 	nb := []int{252, 253, 254}
-	if g.Thorough() || r.Chance(1, 2) {
-		nb = append(nb, 65535)
-	} else {
-		nb = append(nb, 65536)
+	if g.Thorough() { // 65535 / 65536 items: a few seconds each in the Lean driver, thorough tier only;
+		// the quick tier covers that boundary of the N prefix on the deserialising side (fromn-nprefix)
+		nb = append(nb, 65535, 65536, 65537)
 	}
-	if g.Thorough() {
-		nb = append(nb, 65536, 65537)
+	for _, pre := range []string{"fc", "fdfd00", "fdfe00", "fdffff", "fe00000100", "fe01000100", "fdfc00", "fe00ffff"} {
+		rec(g, "fromn-nprefix", true, fmt.Sprintf("C20 fromn 19 784931 %s %s%s %s", keyTok(r), pre,
+			hex.EncodeToString(r.Bytes(1+r.Intn(12))), itemsTok(randItems(r, 3, 6))))
 	}
 	for _, n := range nb {
 		mult, add := r.U64()|1, r.U64()
